@@ -150,7 +150,8 @@ def check(prog: Program, tier: str) -> Result:
     _check_decorators(prog, res)
     # ---------------------------------------------------------------- R10.8 precedence order
     _check_precedence(prog, res, S)
-    res.floors.update({"R10.1": 1, "R10.2": 2, "R10.3": 2, "R10.4": 3, "R10.5": 3, "R10.6": 1, "R10.7": 2, "R10.8": 2})
+    _r10_9(prog, res)
+    res.floors.update({"R10.1": 1, "R10.2": 2, "R10.3": 2, "R10.4": 3, "R10.5": 3, "R10.6": 1, "R10.7": 2, "R10.8": 2, "R10.9": 1})
     res.analysed.update({"insertion_sites": len(S.inserts), "returned_collection": S.R})
     return res
 
@@ -714,6 +715,46 @@ def _check_precedence(prog, res, S: Scheduler) -> None:
     res.ok("R10.8", fn.loc(L), fn.fq, "per-rule processing", f"{len(cont)} early-continue guard(s) in the transaction loop", trivial=True)
 
 
+def _r10_9(prog: Program, res: Result) -> None:
+    """Rewrites that are only right TOGETHER belong to one transaction - that is what transactions are for.  A rule that moves a
+    definition (yields its deletion and the insertion of a rebuilt FunctionDef / ClassDef under a new name) and also rewrites the
+    references to it (yields replacements collected in a dict beforehand) must give all of them the same transaction value: if
+    the move is dropped because it overlaps something, the renamed references point at a name that does not exist.
+    Obligation: the transaction variable of such a rule has one value - it is bound once and never stepped."""
+    from ..defuse import bindings
+    n = 0
+    for fn in prog.funcs.values():
+        if not fn.is_fix:
+            continue
+        ys = [y for y in walk_own(fn.node) if isinstance(y, ast.Yield) and isinstance(y.value, ast.Tuple) and len(y.value.elts) == 3]
+        inserts_def = False
+        for y in ys:
+            a, b, _t = y.value.elts
+            if isinstance(a, ast.Constant) and a.value is None and isinstance(b, ast.Name):
+                for _s, v in bindings(fn).get(b.id, []):
+                    if isinstance(v, ast.Call) and (prog.dotted(v.func) or "") in ("ast.FunctionDef", "ast.AsyncFunctionDef", "ast.ClassDef") \
+                            and any(k.arg == "name" and not (isinstance(k.value, ast.Attribute) and k.value.attr == "name") for k in v.keywords):
+                        inserts_def = True
+        from_dict = [y for y in ys if isinstance(parent(y), ast.Expr) and isinstance(parent(parent(y)), ast.For) and isinstance(parent(parent(y)).iter, ast.Call)
+                     and isinstance(parent(parent(y)).iter.func, ast.Attribute) and parent(parent(y)).iter.func.attr == "items"]
+        if not (inserts_def and from_dict):
+            continue
+        n += 1
+        tvars = {y.value.elts[2].id for y in ys if isinstance(y.value.elts[2], ast.Name)}
+        consts = {norm(y.value.elts[2]) for y in ys if not isinstance(y.value.elts[2], ast.Name)}
+        steps = [x for x in walk_own(fn.node) if isinstance(x, ast.AugAssign) and isinstance(x.target, ast.Name) and x.target.id in tvars]
+        values = set(consts)
+        for tv in tvars:
+            values |= {norm(v) for _s, v in bindings(fn).get(tv, []) if v is not None and not isinstance(_s, ast.AugAssign)}
+        ok = not steps and len(values) == 1
+        res.decide(ok, "R10.9", fn.loc(ys[0]), fn.fq, f"{fn.name} # transactions of a definition move and of the rewritten references",
+                   "one transaction for the move and the references" if ok else
+                   f"the references are rewritten in one transaction and the definitions move in others (values {sorted(values)}{', stepped' if steps else ''}): when a move overlaps another "
+                   "rewrite it is dropped alone and the references point at a name that was never created (recursive static method: NameError)")
+    if n == 0:
+        res.ok("R10.9", "pyrefact/", "package", "rules that move a definition and rewrite its references", "none found", trivial=True)
+
+
 # ---------------------------------------------------------------------------------------------- self-test
 from ..selftest import Variant  # noqa: E402
 
@@ -741,6 +782,7 @@ _INTER = """                for _, (other, _) in scheduled_rewrites:
 """
 
 VARIANTS = [
+    Variant("moves-in-transactions-of-their-own", "FIRE", "object_oriented", "            yield None, funcdef_static, transaction\n", "            yield None, funcdef_static, transaction\n\n            transaction += 1\n", "R10.9"),
     Variant("intra-loop-forgets-flag", "FIRE", "processing", _INTRA, _INTRA.replace("                        conflicting = True\n", ""), "R10.1"),
     Variant("inter-loop-forgets-flag", "FIRE", "processing", _INTER, _INTER.replace("                        conflicting = True\n", ""), "R10.1"),
     Variant("guard-deleted", "FIRE", "processing",
